@@ -344,7 +344,15 @@ fn main() {
                     trainer.add_example(sent);
                 }
                 let nfeat = trainer.n_features();
-                match trainer.train(0.01, 1.0, solver) {
+                // a panic inside train() must not hide the (already known) feature count: C10's native confirmation reads it
+                let trained = match catch_unwind(AssertUnwindSafe(move || trainer.train(0.01, 1.0, solver))) {
+                    Ok(r) => r,
+                    Err(e) => {
+                        let msg = e.downcast_ref::<&str>().map(|s| s.to_string()).or_else(|| e.downcast_ref::<String>().cloned()).unwrap_or_else(|| "?".to_string());
+                        return json!({"panic": msg, "n_features": nfeat});
+                    }
+                };
+                match trained {
                     Ok(m) => {
                         let bytes = m.to_vec().unwrap();
                         let j = model_to_json(&bytes);
